@@ -11,8 +11,10 @@ VERIF = os.path.dirname(os.path.dirname(os.path.abspath(__file__)))
 REPO = os.path.abspath(os.environ.get("VERIF_REPO", "/repo"))
 TARGET = os.path.join(VERIF, "target")
 WORK = os.path.join(VERIF, "work")
-EVIDENCE = os.path.join(VERIF, "evidence")
-REPLAYS = os.path.join(VERIF, "replays")
+# evidence / replays of runs against a substituted tree (mutation self-tests) must not overwrite those of /repo
+_SUB = REPO != "/repo"
+EVIDENCE = os.path.join(VERIF, "evidence") if not _SUB else os.path.join(WORK, "evidence-" + hashlib.sha1(REPO.encode()).hexdigest()[:10])
+REPLAYS = os.path.join(VERIF, "replays") if not _SUB else os.path.join(WORK, "replays-" + hashlib.sha1(REPO.encode()).hexdigest()[:10])
 NCPU = min(16, os.cpu_count() or 4)
 
 EXIT_OK, EXIT_VIOLATION, EXIT_INCONCLUSIVE = 0, 1, 2
